@@ -31,6 +31,21 @@ CHECKS = {
  "C19": ("fault_enumeration", "4/C19", "runtime monitoring: KV-diff oracle under boundary fault injection (gas-limit sweep = abort at successive store accesses, multi-message late failure, crafted late-failing packets)",
          "Every TIBC message kind is delivered under a gas sweep (hundreds of abort points per kind), in multi-message transactions with a late failure and as crafted late-failing packets; every failed transaction must leave tibc/NFT/nft/mt untouched and every error-acknowledged receive must leave ownership/balances/supplies untouched with exactly receipt+ack written.",
          "Trusts BaseApp's branch-and-discard; the sweep granularity (gas step) bounds which store accesses become abort points."),
+ "C04": ("exploration", "4/C04", "runtime monitoring: lineage ledger built from observed ownership diffs, audited against the real ownership tables of all chains after every step",
+         "Every natively minted NFT is tracked as one unit (held representative / in flight / burned, chain of escrow custody); after every step of hostile histories (class ids with '/', ids spelling voucher paths, same token id everywhere, local transfers, burns, relayed routes, malformed receivers, random relay order) every real NFT must be the representative of exactly one unit, every escrow release must be of the returning unit's own token, vouchers appear only against a delivered packet.",
+         "Honest relayer (alterations are C13's subject); nobody donates NFTs to the escrow account. Two recorded known findings for native classes that spell voucher paths."),
+ "C05": ("exploration", "4/C05", "runtime monitoring: conservation equations evaluated with big integers on the real MT balances and supplies of all chains after every step",
+         "supply = sum of balances; escrow(parent) = sum of child voucher supplies + units in flight (+ units burned by holders); user-held units over all representatives + in flight = natively minted. Amounts from the boundary set up to 2^64-1, mint-more up to and over the limit, partial sends, sends of more than owned, amount 0, direct and relayed routes, malformed receivers, random relay order.",
+         "Lineage edges come from observed diffs; MT class and token ids are module-generated."),
+ "C06": ("fault_enumeration", "4/C06", "runtime monitoring: snapshot-comparison oracle over an enumerated table of (asset/class kind x route shape x failure point / round trip) scripts on real chains",
+         "The table {7 NFT class/id kinds + 4 MT amounts} x {28 route shapes of 1-3 hops, every hop direct or relayed} x {round trip, failure at each hop by malformed receiver, by relay-chain refusal} is run (quick: a seeded third; thorough: all, exhaustive=true): holdings before the failing send = holdings after the processed error ack, nothing on the receiving side; after the round trip the origin holds the original class/id/amount and every intermediate voucher and escrow is gone.",
+         "Strings inside a class kind are representatives, not all strings. Three recorded known findings for NFT class ids containing '/'."),
+ "C11": ("exploration", "4/C11", "runtime monitoring: reference routing model + hook-reported callbacks + twin-run (relayed vs direct) differential oracle",
+         "Every step on the relay chain of scripted bidirectional NFT/MT/mock traffic under 8 rule sets (incl. a destination the relay chain does not know) is judged: re-commit unchanged iff whitelisted and destination known, else recorded error ack and the destination never accepts; acks (success and error) stored unchanged and accepted at every hop back; no callback (H1) and no token-store change on the relay chain; allow-all scenarios are re-run on a twin network over a direct route and the final token state of both ends compared.",
+         "Honest relayer in random order; twin comparison only for scenarios in which every packet is whitelisted."),
+ "C15": ("fault_enumeration", "4/C15", "runtime monitoring: access-control matrix enumerated against real chains, effect decided by KV diff",
+         "{create, upgrade, register-relayer, set-rules} x 6 ways of presenting an authority (gov execution, router with user/empty authority, user-signed naming itself / forging gov / relayer) x payloads (new/existing name, same/other client type, garbage Any) and update-client x {relayer of this chain, of another chain, arbitrary, replaced} in registries of 0-3 clients; refused requests must leave an empty diff, authorised ones must take the stated effect, create never overwrites, upgrade never changes type.",
+         "Legacy v1beta1 proposal handlers are only reachable through gov and are not driven separately."),
 }
 PENDING = {
 }
